@@ -13,6 +13,7 @@ through case_to_json):
            RELAYCLIENT, DATABYTES (absent key = variable not set)
   ctl_db   None or int: content of control/databytes
   plan     NQV_QQ_PLAN for the queue stand-in: 'tee' (real qmail-queue behind it) or a side-B plan
+  nofile   optional: RLIMIT_NOFILE for the daemon (resource trouble: pipe()/open() fail)
   shim     None or an NQV_PLAN fault for the real qmail-queue (tee only)
   modelfree True: only the model-free part of the oracle applies (random byte corruption)
 
